@@ -58,6 +58,13 @@ inline std::string printable(const void *p, size_t n) { std::string s; const uin
   for (size_t i = 0; i < n && i < 80; i++) s.push_back(b[i] >= 0x21 && b[i] < 0x7f ? (char)b[i] : '.'); return s; }
 inline std::string show_in(const void *p, size_t n) { return "in=hex:" + hexs(p, n) + "(\"" + printable(p, n) + "\") len=" + std::to_string(n); }
 
+// lazily formatted input description (only built when a violation / sample is printed)
+struct ShowIn { const void *p; size_t n; ShowIn(const void *p_, size_t n_) : p(p_), n(n_) {} std::string str() const { return show_in(p, n); } operator std::string() const { return str(); } };
+inline std::string operator+(const ShowIn &a, const std::string &b) { return a.str() + b; }
+inline std::string operator+(const ShowIn &a, const char *b) { return a.str() + b; }
+inline std::string operator+(const std::string &a, const ShowIn &b) { return a + b.str(); }
+inline std::string operator+(const char *a, const ShowIn &b) { return a + b.str(); }
+
 inline void viol(const std::string &sig, const std::string &repr) {
   C.violations++;
   unsigned &n = g_sig_count[sig];
@@ -104,12 +111,15 @@ struct Ex {
 // 20-value boundary alphabet: NUL, SOH, TAB, SP, '%', '+', '/', '0', '9', '=', 'A', 'F', 'Z', 'a', 'f', 'z', DEL, 0x80, 0xC3, 0xFF
 static const uint8_t A20[20] = {0x00, 0x01, 0x09, 0x20, 0x25, 0x2B, 0x2F, 0x30, 0x39, 0x3D, 0x41, 0x46, 0x5A, 0x61, 0x66, 0x7A, 0x7F, 0x80, 0xC3, 0xFF};
 // 40-value alphabet = A20 + neighbours of every codec boundary
+// 64-value alphabet = A40 + 24 interior / control / high values
+static const uint8_t A64X[24] = {0x02, 0x0D, 0x1B, 0x22, 0x23, 0x26, 0x31, 0x38, 0x3F, 0x42, 0x4D, 0x59, 0x5C, 0x5F, 0x62, 0x6D, 0x79, 0x7C, 0x7D, 0x82, 0xA0, 0xE0, 0xF0, 0xFD};
 static const uint8_t A40[40] = {0x00, 0x01, 0x09, 0x20, 0x25, 0x2B, 0x2F, 0x30, 0x39, 0x3D, 0x41, 0x46, 0x5A, 0x61, 0x66, 0x7A, 0x7F, 0x80, 0xC3, 0xFF,
                                 0x0A, 0x1F, 0x21, 0x2A, 0x2C, 0x2E, 0x3A, 0x3C, 0x3E, 0x40, 0x47, 0x5B, 0x60, 0x67, 0x7B, 0x7E, 0x81, 0xBF, 0xFE, 0x2D};
 inline std::vector<uint8_t> alphabet(const std::string &name) {
   std::vector<uint8_t> a;
   if (name == "A20") a.assign(A20, A20 + 20);
   else if (name == "A40") a.assign(A40, A40 + 40);
+  else if (name == "A64") { a.assign(A40, A40 + 40); a.insert(a.end(), A64X, A64X + 24); }
   else if (name == "FULL") for (int i = 0; i < 256; i++) a.push_back((uint8_t)i);
   else { int n = atoi(name.c_str() + 1); /* "E<n>": n evenly strided values incl. 0 and 255 plus A20 */ a.assign(A20, A20 + 20);
          for (int i = 0; i < n; i++) { uint8_t v = (uint8_t)(i * 255 / (n > 1 ? n - 1 : 1)); bool have = false; for (auto x : a) have |= (x == v); if (!have) a.push_back(v); } }
@@ -127,6 +137,8 @@ inline uint8_t pat_byte(int p, size_t i, size_t L) {
     default: return (uint8_t)((i * i * 5 + i * 13 + L * 3) ^ (i >> 1));
   }
 }
+// a few fixed members of the encoder domain are shown as samples (whichever partition owns them prints them)
+inline bool interesting_sample(const uint8_t *x, size_t n) { return (n == 2 && x[0] == 0xC3 && x[1] == 0xFF) || (n == 3 && x[0] == 0x2F && x[1] == 0x80 && x[2] == 0x25) || (n == 66 && x[0] == pat_byte(2, 0, 66) && x[1] == pat_byte(2, 1, 66) && x[5] == pat_byte(2, 5, 66)); }
 inline std::vector<uint8_t> pattern(int p, size_t L) { std::vector<uint8_t> v(L); for (size_t i = 0; i < L; i++) v[i] = pat_byte(p, i, L); return v; }
 
 // enumerate every string of length `len` over alphabet `a` whose FIRST symbol index i satisfies i % nparts == part
